@@ -6,6 +6,10 @@ props = [json.loads(l) for l in open(os.path.join(VERIF, 'properties.jsonl'))]
 ids = [p['id'] for p in props]
 
 CHECKS = {
+ 'C02': dict(engine='E1 enum', category='exploration', design_ref='3 C02',
+   technique='bounded-exhaustive enumeration of (program, value, configuration) round trips against a convention-driven reference codec and stdlib json / PyYAML / msgpack',
+   text='The C01 universe (atoms x positions, shapes x assignments) through JsonDocument, YamlDocument, MessagePackDocument (str- and bin-keyed requests) and MessagePackRpc x ignore_wrappers x complex_as {dict, list} x validator {None, soft}; 40 configurations taken in full. Requests are produced and responses decoded by third-party serialisers from plain Python documents built by an independent codec; integers to 10**30, 40-digit decimals and (thorough) every Unicode scalar value are in the alphabets.',
+   note='Conventions of DESIGN Appendix C are the reference; the bare body style has no documented dict convention and is excluded; positional form only for fully populated objects; PyYAML strings it cannot round-trip itself are excluded and counted.'),
  'C01': dict(engine='E1 enum', category='exploration', design_ref='3 C01',
    technique='bounded-exhaustive enumeration of (program, value, configuration) round trips against a schema-driven reference codec and Spyne\'s own client',
    text='Every atom of a 42-type alphabet in every one of 12 structural positions, and every object shape with up to 2 (quick) / 3 (thorough) fields, with every conformant boundary value / every None-empty-one-two container assignment, through XmlDocument, Soap11 and Soap12 under validator None/soft/lxml on the real ServerBase pipeline. Requests are built from the published XML Schema by an independent codec, so the check covers both directions with a non-Spyne peer; the loopback client repeats every wrapped-style call with Spyne\'s own client code. The space is finite and enumerated completely.',
